@@ -1,6 +1,7 @@
 package main
 
 import (
+	"os"
 	"fmt"
 	"go/token"
 	"go/types"
@@ -641,10 +642,20 @@ func (vc *VC) havocCallee(st *State, callee *ssa.Function, name string) {
 				}
 			}
 			if okCP {
+				if os.Getenv("GOVC_KEEPSGAP") != "" && vc.con != nil && len(vc.con.Keeps) > 0 && vc.tableEntryKeeps(callee) == nil && (callee == nil || vc.eng.conOf[callee] == nil || len(vc.eng.conOf[callee].Keeps) == 0) {
+					for v := range vars {
+						if strings.Contains(v, "LVal") {
+							fmt.Fprintf(os.Stderr, "keeps-gap: %s: call %s havocs %s (fresh-only=%v)\n", vc.fn, name, v, es.fresh[v])
+						}
+					}
+				}
 				vc.havocVars(st, vars, es.fresh)
 				return
 			}
 		}
+	}
+	if os.Getenv("GOVC_KEEPSGAP") != "" && vc.con != nil && len(vc.con.Keeps) > 0 && vc.tableEntryKeeps(callee) == nil && (callee == nil || vc.eng.conOf[callee] == nil || len(vc.eng.conOf[callee].Keeps) == 0) {
+		fmt.Fprintf(os.Stderr, "keeps-gap: %s: call %s havocs everything\n", vc.fn, name)
 	}
 	vc.note("call havocs the whole heap (dynamic or unknown callees reachable): " + name)
 	vc.havocAll(st, name)
